@@ -33,8 +33,10 @@ use serde::{Deserialize, Serialize};
 /// A BBS+ signature consisting of a group element `A` and a scalar `e`.
 pub struct BBSplusSignature {
     /// Group element `A` in the BBS+ signature.
+    #[serde(deserialize_with = "crate::utils::util::bbsplus_utils::de_g1_non_identity")]
     pub A: G1Projective,
     /// Scalar `e` in the BBS+ signature.
+    #[serde(deserialize_with = "crate::utils::util::bbsplus_utils::de_scalar_non_zero")]
     pub e: Scalar,
 }
 
